@@ -469,6 +469,16 @@ func ctxHarness(rc *RunCtx) {
 								rc.Violate("C17", "clone-aliases-original", "Clone(ctx) of a plain FContext", fmt.Sprintf("%v %v", a, b))
 							}
 						}
+						if tp.Intn("usedctx", 4) == 3 {
+							// the private context has been used for a call on a registry-backed transport and is kept (for a
+							// retry, for the next call): whatever op id it carries afterwards is still its own alone
+							rc.Fault("context-kept-after-a-completed-call")
+							before, _ := private.RequestHeader("_opid")
+							frugal.SimCompletedCall(private)
+							if after, _ := private.RequestHeader("_opid"); after != before {
+								noteOpid(private, fmt.Sprintf("task%d/private-after-a-call#%d", t, i))
+							}
+						}
 						for j := 0; j < 3; j++ {
 							noteOpid(frugal.NewFContext(""), fmt.Sprintf("task%d/new#%d.%d", t, i, j))
 						}
